@@ -40,6 +40,8 @@ type scenario struct {
 	scopes    []string // additional scopes as configured (duplicates possible)
 	transport string   // tcp | websocket | tls | kcp | quic
 	barrage   bool
+	expiry    bool // OIDC: a short-lived token is used while valid and replayed after it expired
+	plugin    bool // a scripted NewWorkConn server plugin (http) rewrites / rejects the content
 }
 
 func (sc scenario) hasScope(s string) bool {
@@ -120,24 +122,29 @@ type snap struct {
 }
 
 type caseCtx struct {
-	g       *hx.Gen
-	idx     int
-	sc      scenario
-	s       *hx.Server
-	il      *netpkg.InternalListener
-	oidc    *oidcWorld
-	token   string
-	tStart  []time.Time
-	sess    []*peerSess // all sessions ever established, by sid
-	ended   []string    // run ids of sessions that ended
-	nconn   int
-	hashTS  map[int64]bool
-	oidcKey map[string]bool
-	steps   []string
-	fails   []map[string]any
-	dist    map[string]int
-	extra   []net.Conn
+	g                 *hx.Gen
+	idx               int
+	sc                scenario
+	s                 *hx.Server
+	il                *netpkg.InternalListener
+	oidc              *oidcWorld
+	token             string
+	tStart            []time.Time
+	sess              []*peerSess // all sessions ever established, by sid
+	ended             []string    // run ids of sessions that ended
+	nconn             int
+	hashTS            map[int64]bool
+	oidcKey           map[string]bool
+	steps             []string
+	fails             []map[string]any
+	dist              map[string]int
+	extra             []net.Conn
 	accepted, refused int
+	shortSub          map[string]string // per-case short-lived OIDC tokens -> subject
+	shortUntil        map[string]int    // -> first step index at which the token is no longer valid
+	plug              *plugStub
+	expiredRefused    int
+	lastLoginKey      string
 }
 
 func (cx *caseCtx) fail(key, what string) {
@@ -327,8 +334,11 @@ func (cx *caseCtx) begin() int {
 }
 
 func (cx *caseCtx) stepLogin(internal bool, good bool, rid string, alwaysPass bool, pool int, specType string) {
+	cx.stepLoginCred(internal, cx.makeCred(good), rid, alwaysPass, pool, specType)
+}
+
+func (cx *caseCtx) stepLoginCred(internal bool, cr cred, rid string, alwaysPass bool, pool int, specType string) {
 	now := cx.begin()
-	cr := cx.makeCred(good)
 	connID := cx.nconn
 	conn, err := cx.dial(internal)
 	if err != nil {
@@ -379,6 +389,7 @@ func (cx *caseCtx) stepLogin(internal bool, good bool, rid string, alwaysPass bo
 	if rid == "" {
 		gen = resp.RunID
 	}
+	cx.lastLoginKey = cr.key
 	var rw io.ReadWriter = conn
 	if !internal {
 		rw, err = netpkg.NewCryptoReadWriter(conn, []byte(cx.s.Cfg.Auth.Token))
@@ -402,8 +413,11 @@ func (cx *caseCtx) stepLogin(internal bool, good bool, rid string, alwaysPass bo
 }
 
 func (cx *caseCtx) stepWorkConn(internal bool, rid string, good bool) {
+	cx.stepWorkConnCred(internal, rid, cx.makeCred(good))
+}
+
+func (cx *caseCtx) stepWorkConnCred(internal bool, rid string, cr cred) {
 	now := cx.begin()
-	cr := cx.makeCred(good)
 	connID := cx.nconn
 	conn, err := cx.dial(internal)
 	if err != nil {
@@ -411,7 +425,25 @@ func (cx *caseCtx) stepWorkConn(internal bool, rid string, good bool) {
 		return
 	}
 	cx.extra = append(cx.extra, conn)
-	ev := fmt.Sprintf("AuEFirst %s %d %d [] (AuFWorkConn %s %s %s)", hx.Bool(internal), connID, now, hx.HxS(rid), cx.keyTerm(cr.key), hx.Z(cr.ts))
+	plugTerm := "AuPlugSame"
+	if cx.plug != nil {
+		switch r := cx.g.Intn(100); {
+		case r < 35:
+			cx.plug.set(plugBehaviour{kind: "same"})
+		case r < 60:
+			c2 := cx.makeCred(true)
+			cx.plug.set(plugBehaviour{kind: "rewrite", key: c2.key, ts: c2.ts})
+			plugTerm = fmt.Sprintf("(AuPlugRewrite %s %s)", cx.keyTerm(c2.key), hx.Z(c2.ts))
+		case r < 85:
+			c2 := cx.makeCred(false)
+			cx.plug.set(plugBehaviour{kind: "rewrite", key: c2.key, ts: c2.ts})
+			plugTerm = fmt.Sprintf("(AuPlugRewrite %s %s)", cx.keyTerm(c2.key), hx.Z(c2.ts))
+		default:
+			cx.plug.set(plugBehaviour{kind: "reject"})
+			plugTerm = "AuPlugReject"
+		}
+	}
+	ev := fmt.Sprintf("AuEFirst %s %d %d [] (AuFWorkConn %s %s %s %s)", hx.Bool(internal), connID, now, hx.HxS(rid), cx.keyTerm(cr.key), hx.Z(cr.ts), plugTerm)
 	before := cx.poolTotal()
 	if err := msg.WriteMsg(conn, &msg.NewWorkConn{RunID: rid, PrivilegeKey: cr.key, Timestamp: cr.ts}); err != nil {
 		cx.fail("workconn-write", err.Error())
@@ -459,7 +491,7 @@ loop:
 	if code == 98 {
 		cx.fail("workconn-limbo", "work connection neither pooled nor closed within 2.5 s")
 	}
-	cx.emit("workconn:"+cr.kind, ev, code, "")
+	cx.emit("workconn:"+cr.kind+":"+strings.Fields(strings.Trim(plugTerm, "()"))[0], ev, code, "")
 }
 
 func (cx *caseCtx) stepVisitor(internal bool, rid, proxy string) {
@@ -582,9 +614,10 @@ func (cx *caseCtx) deadCode(p *peerSess) int {
 	}
 }
 
-func (cx *caseCtx) stepPing(p *peerSess, good bool) {
+func (cx *caseCtx) stepPing(p *peerSess, good bool) { cx.stepPingCred(p, cx.makeCred(good)) }
+
+func (cx *caseCtx) stepPingCred(p *peerSess, cr cred) {
 	now := cx.begin()
-	cr := cx.makeCred(good)
 	ev := fmt.Sprintf("AuELater %d %d (AuLPing %s %s)", p.sid, now, cx.keyTerm(cr.key), hx.Z(cr.ts))
 	if p.dead {
 		cx.emit("ping-dead", ev, cx.deadCode(p), p.rid)
@@ -800,6 +833,9 @@ func scopeTerm(s string) string {
 }
 
 func (cx *caseCtx) keyTerm(k string) string {
+	if _, ok := cx.shortSub[k]; ok {
+		return hx.HxS(k)
+	}
 	if cx.oidc != nil {
 		if n, ok := cx.oidc.names[k]; ok {
 			return n
@@ -810,7 +846,8 @@ func (cx *caseCtx) keyTerm(k string) string {
 
 func runCase(seed int64, idx int, addr string, sc scenario, ow *oidcWorld) (string, []map[string]any, map[string]int, [2]int, error) {
 	g := hx.NewGen(seed*1000003 + int64(idx))
-	cx := &caseCtx{g: g, idx: idx, sc: sc, token: hx.DefaultToken, hashTS: map[int64]bool{}, oidcKey: map[string]bool{}, dist: map[string]int{}}
+	cx := &caseCtx{g: g, idx: idx, sc: sc, token: hx.DefaultToken, hashTS: map[int64]bool{}, oidcKey: map[string]bool{}, dist: map[string]int{},
+		shortSub: map[string]string{}, shortUntil: map[string]int{}}
 	if sc.method == "oidc" {
 		cx.oidc = ow
 	}
@@ -828,7 +865,20 @@ func runCase(seed int64, idx int, addr string, sc scenario, ow *oidcWorld) (stri
 			cx.token = ""
 		}
 		configureTransport(c, addr, sc.transport)
+		if sc.plugin {
+			ps, perr := newPlugStub(addr)
+			if perr == nil {
+				cx.plug = ps
+				c.HTTPPlugins = []v1.HTTPPluginOptions{{Name: "c04-stub", Addr: ps.addr, Path: "/handler", Ops: []string{"NewWorkConn"}}}
+			}
+		}
 	})
+	if cx.plug != nil {
+		defer cx.plug.close()
+	}
+	if sc.plugin && cx.plug == nil {
+		return "", nil, nil, [2]int{}, fmt.Errorf("plugin stub could not start")
+	}
 	if err != nil {
 		return "", nil, nil, [2]int{}, err
 	}
@@ -847,6 +897,12 @@ func runCase(seed int64, idx int, addr string, sc scenario, ow *oidcWorld) (stri
 
 	cx.dist["case-transport:"+sc.transport]++
 	cx.dist["case-method:"+sc.method]++
+	if sc.expiry {
+		cx.dist["case-scenario:oidc-expiry"]++
+	}
+	if sc.plugin {
+		cx.dist["case-scenario:workconn-plugin"]++
+	}
 	nsteps := 8 + g.Intn(14)
 	pBad := 0.45
 	if sc.barrage {
@@ -866,9 +922,23 @@ func runCase(seed int64, idx int, addr string, sc scenario, ow *oidcWorld) (stri
 		} else {
 			cx.fail("barrage-victim-gone", "the established session did not survive a barrage of refused attempts")
 		}
+	} else if sc.expiry {
+		cx.expiryScenario()
+		for i := 0; i < 4; i++ {
+			cx.randomStep(pBad)
+		}
 	} else {
 		for i := 0; i < nsteps; i++ {
 			cx.randomStep(pBad)
+		}
+		if sc.plugin {
+			for i := 0; i < 6; i++ {
+				if lv := cx.live(); len(lv) > 0 {
+					cx.stepWorkConn(false, lv[cx.g.Intn(len(lv))].rid, cx.g.Chance(0.6))
+				} else {
+					cx.stepLogin(false, true, "", false, 2, "")
+				}
+			}
 		}
 	}
 
@@ -891,7 +961,14 @@ func runCase(seed int64, idx int, addr string, sc scenario, ow *oidcWorld) (stri
 		sort.Strings(ks)
 		for _, k := range ks {
 			sub, ok := cx.oidc.subject[k]
-			ot = append(ot, fmt.Sprintf("(%s, %s)", cx.keyTerm(k), hx.Opt(hx.HxS(sub), ok)))
+			until := 1000000
+			if s2, short := cx.shortSub[k]; short {
+				sub, ok = s2, true
+				if u, exp := cx.shortUntil[k]; exp {
+					until = u
+				}
+			}
+			ot = append(ot, fmt.Sprintf("(%s, %s)", cx.keyTerm(k), hx.Opt(fmt.Sprintf("(%s, %d)", hx.HxS(sub), until), ok)))
 		}
 	}
 	scs := make([]string, len(sc.scopes))
@@ -970,6 +1047,13 @@ func runAuth(cfg *hx.RunCfg) error {
 			sc.transport = transports[(i/7)%len(transports)]
 		}
 		sc.barrage = i%10 == 9
+		if !sc.barrage && i%5 == 3 {
+			sc.plugin = true
+			sc.scopes = [][]string{{"NewWorkConns"}, {"HeartBeats", "NewWorkConns"}, {"NewWorkConns"}, {}, {"NewWorkConns", "HeartBeats", "NewWorkConns"}}[(i/5)%5]
+		}
+		if sc.method == "oidc" && len(sc.scopes) > 0 && !sc.barrage && !sc.plugin && (i/3)%3 == 0 {
+			sc.expiry = true
+		}
 		jobs[i] = job{i, sc}
 	}
 	_ = g
@@ -1018,7 +1102,11 @@ func runAuth(cfg *hx.RunCfg) error {
 			"Definition NPROXYOK := Eval vm_compute in c04_count_code 5 cases.\nPrint NPROXYOK.\n" +
 			"Definition NOTHERFIRST := Eval vm_compute in c04_count_code 24 cases.\nPrint NOTHERFIRST.\n" +
 			"Definition NINTERNALPASS := Eval vm_compute in c04_count_internal_pass cases.\nPrint NINTERNALPASS.\n" +
-			"Definition NNETWORKCLAIM := Eval vm_compute in c04_count_network_claim cases.\nPrint NNETWORKCLAIM.\n",
+			"Definition NNETWORKCLAIM := Eval vm_compute in c04_count_network_claim cases.\nPrint NNETWORKCLAIM.\n" +
+			"Definition NOIDCEXPIREDREFUSED := Eval vm_compute in c04_count_expired_refused cases.\nPrint NOIDCEXPIREDREFUSED.\n" +
+			"Definition NPLUGREWRITEREFUSED := Eval vm_compute in c04_count_rewrite_refused cases.\nPrint NPLUGREWRITEREFUSED.\n" +
+			"Definition NPLUGREWRITEPOOLED := Eval vm_compute in c04_count_rewrite_pooled cases.\nPrint NPLUGREWRITEPOOLED.\n" +
+			"Definition NPLUGREJECT := Eval vm_compute in c04_count_code 39 cases.\nPrint NPLUGREJECT.\n",
 	}
 	dist := map[string]int{}
 	distinct := map[string]bool{}
@@ -1112,4 +1200,36 @@ func heartbeatScenario(addr string) []map[string]any {
 		bad("always-pass-pings-did-not-keep-alive", "an always-pass (internal) session sending heartbeats was torn down")
 	}
 	return fails
+}
+
+// expiryScenario: an OIDC token is presented while valid (ping, work connection) and the SAME raw token is
+// presented again after it expired; the verifier must be consulted every time, so the replays are refused.
+func (cx *caseCtx) expiryScenario() {
+	cx.stepLogin(false, true, "", false, 1, "")
+	lv := cx.live()
+	if len(lv) == 0 {
+		return
+	}
+	p := lv[0]
+	// whose subject? the login used one of alice/bob/carol; use the same subject so that continuity holds
+	sub := cx.oidc.subject[cx.lastLoginKey]
+	exp := time.Now().Unix() + 2
+	tok := cx.oidc.mint(sub, exp)
+	cx.shortSub[tok] = sub
+	cx.oidcKey[tok] = true
+	c := cred{key: tok, ts: 0, kind: "jwt-short"}
+	cx.stepPingCred(p, c)
+	cx.stepWorkConnCred(false, p.rid, c)
+	if !time.Now().Before(time.Unix(exp, 0).Add(-300 * time.Millisecond)) {
+		// too slow: the token may have expired during the "valid" uses; make the case say nothing about expiry
+		cx.fail("expiry-scenario-too-slow", "the valid uses of the short-lived token did not finish 300 ms before its expiry")
+		return
+	}
+	time.Sleep(time.Until(time.Unix(exp, 0).Add(400 * time.Millisecond)))
+	cx.shortUntil[tok] = len(cx.tStart) // the next step is the first one at which the token is invalid
+	c.kind = "jwt-short-expired"
+	cx.stepPingCred(p, c)
+	cx.stepWorkConnCred(false, p.rid, c)
+	cx.stepLoginCred(false, c, "", false, 0, "")
+	cx.stepPingCred(p, c)
 }
